@@ -226,6 +226,12 @@ func (k *checker) run(q request) {
 			idx := e.lookup(r.Paths[0])
 			idxOf[i] = idx
 			switch {
+			case idx == belowLink && (depth == "infinity"):
+				// whether a link to a directory is descended into is left open
+				c.Observe("dont-care", "answer below a link to a directory at Depth infinity", 1)
+			case idx == belowLink:
+				scopeOK = false
+				k.report(scopeKey("out-of-scope-resource-answered"), fmt.Sprintf("%q lies below a link member: outside the scope of Depth %s on %q", r.Paths[0], depthClass(q), q.Path), q, out, r.Hrefs[0])
 			case idx < 0:
 				scopeOK = false
 				k.report(scopeKey("href-of-no-resource"), fmt.Sprintf("href %q (path %q) is not a resource of the backend", r.Hrefs[0], r.Paths[0]), q, out, r.Hrefs[0])
@@ -244,6 +250,19 @@ func (k *checker) run(q request) {
 			}
 		}
 		for idx := range want {
+			if m := e.res[idx]; m.Link && m.Parent == q.Target && depth != "0" {
+				after := "no"
+				for _, j := range e.children(q.Target) {
+					if e.res[j].Path > m.Path {
+						after = "yes"
+					}
+				}
+				c.Observe("links", fmt.Sprintf("%s member of the addressed %s, depth=%s, siblings-sorting-after=%s, listed=%v", m.Level, res.Level, depthClass(q), after, got[idx] > 0), 1)
+			}
+			if got[idx] == 0 && e.res[idx].Optional {
+				c.Observe("dont-care", "dangling link omitted from the listing", 1)
+				continue
+			}
 			if got[idx] == 0 {
 				scopeOK = false
 				k.report(scopeKey("in-scope-resource-missing"), fmt.Sprintf("%q (%s) is in scope of Depth %s on %q but has no response", e.res[idx].Path, e.res[idx].Level, depthClass(q), q.Path), q, out, e.res[idx].Path)
@@ -331,6 +350,7 @@ func (k *checker) account(q request, out outcome, idx int, resp *davx.Response, 
 	if !ref.ok {
 		return // the reference itself was reported
 	}
+	self := ref.selfOnly
 	type ans struct {
 		code int
 		node *xmltree.Node
@@ -362,7 +382,7 @@ func (k *checker) account(q request, out outcome, idx int, resp *davx.Response, 
 					k.report(key(srv, res.Level, form, "name-with-value"), fmt.Sprintf("%s: propname answer carries a value for %s", where, n), q, out, n)
 				}
 			}
-			if !ref.names[n] {
+			if !self && !ref.names[n] {
 				k.report(key(srv, res.Level, form, "name-not-in-depth-0-propname"), fmt.Sprintf("%s lists %s which the resource's own propname answer lacks", where, n), q, out, n)
 			}
 		}
@@ -376,7 +396,7 @@ func (k *checker) account(q request, out outcome, idx int, resp *davx.Response, 
 			if len(answered[n]) > 1 {
 				k.report(key(srv, res.Level, form, "property-answered-twice"), fmt.Sprintf("%s answers %s %d times", where, n, len(answered[n])), q, out, n)
 			}
-			if !ref.names[n] {
+			if !self && !ref.names[n] {
 				k.report(key(srv, res.Level, form, "property-not-in-propname"), fmt.Sprintf("%s answers %s which propname does not list", where, n), q, out, n)
 				continue
 			}
@@ -453,6 +473,13 @@ func (k *checker) account(q request, out outcome, idx int, resp *davx.Response, 
 			avail := ref.names[n]
 			for _, a := range answered[n] {
 				switch {
+				case self && a.code == 200:
+				case self && a.code == 404:
+					if !emptyElement(a.node) {
+						k.report(key(srv, res.Level, form, "404-property-not-empty"), fmt.Sprintf("%s: %s under 404 carries content", where, n), q, out, n)
+					}
+				case self:
+					k.report(key(srv, res.Level, form, fmt.Sprintf("property-under-%d", a.code)), fmt.Sprintf("%s: %s answered under %d", where, n, a.code), q, out, n)
 				case avail && a.code == 200:
 					if v, ok := ref.values[n]; ok && v != a.node.Canon(xmltree.CmpOpts{}) {
 						k.report(key(srv, res.Level, form, "value-differs-from-allprop"), fmt.Sprintf("%s: value of %s differs from the resource's allprop answer", where, n), q, out, n)
@@ -485,6 +512,10 @@ func (k *checker) reference(idx int) *reference {
 	ref := &reference{names: map[string]bool{}, values: map[string]string{}}
 	e.refs[idx] = ref
 	res := e.res[idx]
+	if res.Link {
+		ref.selfOnly, ref.ok = true, true
+		return ref
+	}
 	srv := e.W.Server
 	single := func(q request) (*davx.Response, outcome, bool) {
 		c.Journal(witness{World: e.W, Request: q})
@@ -628,7 +659,7 @@ func runEnv(c *fw.Ctx, i int) {
 	var targets []int
 	seenLevel := map[string]bool{}
 	for idx, res := range e.res {
-		if !seenLevel[res.Level] {
+		if !seenLevel[res.Level] && !res.Link {
 			seenLevel[res.Level] = true
 			targets = append(targets, idx)
 		}
@@ -644,7 +675,11 @@ func runEnv(c *fw.Ctx, i int) {
 		}
 	}
 	for j := 0; j < extra; j++ {
-		k.run(genRequest(r, e, r.Intn(len(e.res))))
+		t := r.Intn(len(e.res))
+		if e.res[t].Link {
+			t = e.res[t].Parent // links are judged as members, never addressed
+		}
+		k.run(genRequest(r, e, t))
 	}
 }
 
@@ -688,7 +723,7 @@ func init() {
 		ID:     "C11",
 		Run:    c11Run,
 		Replay: c11Replay,
-		Rule: "worlds are drawn per index from (seed): file trees (webdav.Handler over LocalFileSystem on a generated directory and over the in-memory FS with arbitrary metadata), " +
+		Rule: "worlds are drawn per index from (seed): file trees (webdav.Handler over LocalFileSystem on a generated directory - 70% of them with 1-4 symbolic links to directories, to files and dangling, relative targets inside the tree, at the top level and in sub-collections, named to sort among their siblings - and over the in-memory FS with arbitrary metadata), " +
 			"CalDAV/CardDAV backends with 0-5 collections x 0-6 objects with/without optional metadata under 6 prefixes, and ServePrincipal options; per world every level present is addressed " +
 			"6 times plus 12-24 random targets; each request draws Depth {0,1,infinity,absent,invalid}, a form {prop with 0-8 names from known+unknown+foreign+no-namespace pools with duplicates and shuffles, " +
 			"allprop, propname, empty body, empty body with XML Content-Type, none-of-the-three, foreign-namespace form element, malformed} and a random lexical rendering; " +
@@ -699,6 +734,7 @@ func init() {
 			"scope is computed from the world specification (parent links of the generated tree / principal -> home set -> collections -> objects), never from the library",
 			"hrefs are compared after percent-decoding; file servers: dot segments resolved (RFC 3986) and a collection may carry or lack a trailing slash; CalDAV/CardDAV: the backend's own path exactly",
 			"don't-care: empty <prop/>; empty body with an XML Content-Type (400 or allprop); CalDAV/CardDAV root answered with a single response labelled with the request path or the principal's path for any Depth; invalid Depth on ServePrincipal (400 or Depth-0 answer)",
+			"symbolic links (fs-local): every directory entry of the addressed collection, whatever its kind, is a member in scope exactly once; how a link is described (file or collection, which properties and values) is don't-care (only the answer's own consistency is judged: each requested name once, 200 or 404, 404 empty); answers below a link to a directory are don't-care at Depth infinity; a dangling link may be listed or omitted; links are never addressed themselves",
 			"requested property elements are empty, so the prop and allprop values of one resource must coincide",
 			"Depth values used as valid are exactly 0, 1, infinity; invalid ones are clearly outside the grammar (no case or white-space variants)",
 		},
